@@ -1,12 +1,51 @@
 package main
 
+// The REAL migration managers of wtxmgr and waddrmgr on databases whose
+// stored versions are older than, equal to or newer than what the code knows:
+//
+//   - through the repository's own call site, wallet.Open (both services in
+//     one walletdb.Update),
+//   - through migration.Upgrade called by the harness inside its own
+//     walletdb.Update (address manager alone, transaction manager alone, both
+//     in the order opposite to wallet.Open's),
+//   - waddrmgr.Open / wtxmgr.Open directly (their own version checks),
+//
+// with a write failure injected at the k-th mutating call of the run (fdb.go),
+// i.e. inside whichever real migration (or SetVersion) performs that write.
+//
+// Old address-manager layouts are produced from a freshly created wallet by
+// writing the version key and undoing what the later migrations add
+// (waddrmgr/migrations.go):
+//   version 7  every block hash since genesis is still stored (migration 8,
+//              storeMaxReorgDepth, prunes them), synced far enough for the
+//              pruning to delete something;
+//   version 6  as 7; the birthday block exists (migration 7 resets the synced
+//              block to it);
+//   version 5  as 6 without the birthday block and its verification flag
+//              (migration 6, populateBirthdayBlock, estimates it from the
+//              birthday timestamp and the stored block hashes).
+// Versions below 5 have another bucket layout altogether and are not built.
+// The transaction manager's version 1 has the layout of version 2 (migration
+// 2 drops and re-creates the history).
+
 import (
+	"bytes"
 	"crypto/sha256"
+	"encoding/binary"
 	"encoding/hex"
 	"errors"
 	"fmt"
+	"io"
+	"os"
+	"path/filepath"
+	"reflect"
+	"runtime"
+	"sort"
+	"strconv"
+	"strings"
 	"time"
 
+	"github.com/btcsuite/btcd/chaincfg"
 	"github.com/btcsuite/btcd/chaincfg/chainhash"
 	"github.com/btcsuite/btcd/txscript"
 	"github.com/btcsuite/btcd/wire"
@@ -21,91 +60,260 @@ import (
 	"verifharness/internal/walletenv"
 )
 
-// realCase exercises the REAL migration managers of wtxmgr and waddrmgr
-// through wallet.Open (both upgrades inside one database transaction).
-type realCase struct {
-	In struct {
-		Real      string `json:"real"`
-		TxDelta   int    `json:"txmgr_version_delta"`   // stored = latest + delta
-		AddrDelta int    `json:"addrmgr_version_delta"` // stored = latest + delta
-	} `json:"in"`
-	Obs struct {
-		OpenErr    string `json:"open_err"`
-		Reversion  bool   `json:"is_reversion"`
-		Unchanged  bool   `json:"db_unchanged"`
-		TxVerAfter uint32 `json:"txmgr_version_after"`
-		AdVerAfter uint32 `json:"addrmgr_version_after"`
-		TxLatest   uint32 `json:"txmgr_latest"`
-		AdLatest   uint32 `json:"addrmgr_latest"`
-	} `json:"obs"`
-	Oracle []string `json:"oracle"`
-	Tags   []string `json:"tags"`
-}
-
 var (
 	wtxNS = []byte("wtxmgr")
 	wadNS = []byte("waddrmgr")
 )
 
-func dumpBucket(h interface{ Write([]byte) (int, error) }, b walletdb.ReadBucket, depth int) error {
-	return b.ForEach(func(k, v []byte) error {
-		fmt.Fprintf(h, "%d|%x|", depth, k)
-		if v == nil {
-			if nb := b.NestedReadBucket(k); nb != nil {
-				h.Write([]byte("B\n"))
-				return dumpBucket(h, nb, depth+1)
-			}
-		}
-		fmt.Fprintf(h, "%x\n", v)
-		return nil
-	})
+const (
+	tipHeight      = 10012 // synced height of the old address-manager layouts
+	birthdayHeight = 10005 // their birthday block
+)
+
+type realIn struct {
+	Real   string `json:"real"`    // scenario label
+	Entry  string `json:"entry"`   // wallet_open | upgrade_both | upgrade_addr | upgrade_tx | open_addr | open_tx
+	Tx     string `json:"txmgr"`   // stored version: "1", "latest", "latest+1", ...
+	Addr   string `json:"addrmgr"` // stored version: "5", "6", "7", "latest", "latest+1", ...
+	FailAt int    `json:"fail_at"` // the k-th mutating call of the run fails; 0 = none
 }
 
-func dumpDB(db walletdb.DB) (string, error) {
-	h := sha256.New()
-	err := walletdb.View(db, func(tx walletdb.ReadTx) error {
-		for _, ns := range [][]byte{wadNS, wtxNS} {
-			b := tx.ReadBucket(ns)
-			if b == nil {
-				return fmt.Errorf("namespace %s missing", ns)
-			}
-			fmt.Fprintf(h, "NS %s\n", ns)
-			if err := dumpBucket(h, b, 0); err != nil {
+type realVersion struct {
+	Num uint32 `json:"num"`
+	Nil bool   `json:"nil"`
+	Fn  string `json:"fn,omitempty"`
+}
+
+type realMgr struct {
+	NS           string        `json:"ns"`
+	Table        []realVersion `json:"table"`
+	Latest       uint32        `json:"latest"`
+	StoredBefore uint32        `json:"stored_before"`
+	VerAfter     uint32        `json:"version_after"`     // the manager's own CurrentVersion
+	RawVerAfter  int64         `json:"raw_version_after"` // read from the raw bucket; -1 = key missing / malformed
+	Unchanged    bool          `json:"namespace_unchanged"`
+	Invoked      []uint32      `json:"invoked"`
+	SetVersion   int           `json:"set_version_writes"`
+	OpenAfter    string        `json:"open_after"` // "" = the component's own Open accepts the database afterwards
+	Effects      string        `json:"effects,omitempty"`
+}
+
+type realFault struct {
+	NS         string `json:"ns"`
+	Fn         string `json:"fn"`
+	Version    uint32 `json:"version"`
+	SetVersion bool   `json:"set_version"`
+}
+
+type realObs struct {
+	Err        string     `json:"err"`
+	Class      string     `json:"class"` // ok | reversion | error
+	Writes     int        `json:"writes"`
+	Txs        int        `json:"rw_transactions"`
+	Fault      *realFault `json:"fault,omitempty"`
+	Mgrs       []realMgr  `json:"mgrs"` // the services the call upgrades, in the order it does
+	Unchanged  bool       `json:"db_unchanged"`
+	Unattrib   int        `json:"unattributed_writes"`
+	RepoSite   bool       `json:"through_repo_call_site"`
+	ModelCheck bool       `json:"model_compared"`
+}
+
+type realCase struct {
+	In     realIn   `json:"in"`
+	Obs    realObs  `json:"obs"`
+	Oracle []string `json:"oracle"`
+	Tags   []string `json:"tags"`
+}
+
+// ---------------------------------------------------------------- version tables
+
+func fnName(f func(walletdb.ReadWriteBucket) error) string {
+	if f == nil {
+		return ""
+	}
+	return runtime.FuncForPC(reflect.ValueOf(f).Pointer()).Name()
+}
+
+func tableOf(vs []migration.Version) ([]realVersion, uint32) {
+	out := make([]realVersion, 0, len(vs))
+	latest := uint32(0)
+	for _, v := range vs {
+		out = append(out, realVersion{Num: v.Number, Nil: v.Migration == nil, Fn: fnName(v.Migration)})
+		if v.Number > latest {
+			latest = v.Number
+		}
+	}
+	sort.SliceStable(out, func(i, j int) bool { return out[i].Num < out[j].Num })
+	return out, latest
+}
+
+func tables() (tx, addr []realVersion, txLatest, addrLatest uint32) {
+	tx, txLatest = tableOf(wtxmgr.NewMigrationManager(nil).Versions())
+	addr, addrLatest = tableOf(waddrmgr.NewMigrationManager(nil).Versions())
+	return
+}
+
+func resolveVersion(s string, latest uint32) (uint32, error) {
+	switch {
+	case s == "latest":
+		return latest, nil
+	case strings.HasPrefix(s, "latest+"):
+		k, err := strconv.Atoi(s[len("latest+"):])
+		if err != nil || k <= 0 {
+			return 0, fmt.Errorf("bad version %q", s)
+		}
+		return latest + uint32(k), nil
+	}
+	k, err := strconv.Atoi(s)
+	if err != nil || k <= 0 {
+		return 0, fmt.Errorf("bad version %q", s)
+	}
+	return uint32(k), nil
+}
+
+// ---------------------------------------------------------------- raw layout
+
+func fakeHash(h int32) chainhash.Hash {
+	var b [8]byte
+	binary.BigEndian.PutUint64(b[:], uint64(h)+0xC19C19)
+	return chainhash.Hash(sha256.Sum256(b[:]))
+}
+
+func heightKey(h int32) []byte {
+	var k [4]byte
+	binary.BigEndian.PutUint32(k[:], uint32(h))
+	return k[:]
+}
+
+func rawTxVersion(ns walletdb.ReadBucket) int64 {
+	v := ns.Get([]byte("vers"))
+	if len(v) != 4 {
+		return -1
+	}
+	return int64(binary.BigEndian.Uint32(v))
+}
+
+func rawAddrVersion(ns walletdb.ReadBucket) int64 {
+	m := ns.NestedReadBucket([]byte("main"))
+	if m == nil {
+		return -1
+	}
+	v := m.Get([]byte("mgrver"))
+	if len(v) != 4 {
+		return -1
+	}
+	return int64(binary.LittleEndian.Uint32(v))
+}
+
+// degrade rewrites a freshly created wallet database into the layout of the
+// requested versions.
+func degrade(db walletdb.DB, txVer, addrVer, addrLatest uint32) error {
+	return walletdb.Update(db, func(dbtx walletdb.ReadWriteTx) error {
+		txns, adns := dbtx.ReadWriteBucket(wtxNS), dbtx.ReadWriteBucket(wadNS)
+		if txns == nil || adns == nil {
+			return errors.New("namespace missing")
+		}
+		// (bbolt keeps the value slices until the commit: one buffer each)
+		tv, av := make([]byte, 4), make([]byte, 4)
+		binary.BigEndian.PutUint32(tv, txVer)
+		if err := txns.Put([]byte("vers"), tv); err != nil {
+			return err
+		}
+		binary.LittleEndian.PutUint32(av, addrVer)
+		if err := adns.NestedReadWriteBucket([]byte("main")).Put([]byte("mgrver"), av); err != nil {
+			return err
+		}
+		if addrVer >= addrLatest {
+			return nil
+		}
+		if addrVer < 5 || addrVer > 7 || addrLatest != 8 {
+			return fmt.Errorf("no recipe for the address-manager layout of version %d (latest %d)", addrVer, addrLatest)
+		}
+		sync := adns.NestedReadWriteBucket([]byte("sync"))
+		for h := int32(2); h <= tipHeight; h++ {
+			hash := fakeHash(h)
+			if err := sync.Put(heightKey(h), hash[:]); err != nil {
 				return err
 			}
 		}
-		return nil
-	})
-	return hex.EncodeToString(h.Sum(nil)), err
-}
-
-func latestOf(vs []migration.Version) uint32 {
-	l := uint32(0)
-	for _, v := range vs {
-		if v.Number > l {
-			l = v.Number
+		var st [40]byte
+		binary.LittleEndian.PutUint32(st[0:4], uint32(tipHeight))
+		th := fakeHash(tipHeight)
+		copy(st[4:36], th[:])
+		binary.LittleEndian.PutUint32(st[36:], 1600000000)
+		if err := sync.Put([]byte("syncedto"), st[:]); err != nil {
+			return err
 		}
-	}
-	return l
+		if addrVer >= 6 {
+			return waddrmgr.PutBirthdayBlock(adns, waddrmgr.BlockStamp{Height: birthdayHeight, Hash: fakeHash(birthdayHeight)})
+		}
+		if err := sync.Delete([]byte("birthdayblock")); err != nil {
+			return err
+		}
+		return sync.Delete([]byte("birthdayblockverified"))
+	})
 }
 
-func runReal(name string, txDelta, addrDelta int) (*realCase, error) {
-	rc := &realCase{Oracle: []string{}, Tags: []string{"real_components", name}}
-	rc.In.Real, rc.In.TxDelta, rc.In.AddrDelta = name, txDelta, addrDelta
-	seed := make([]byte, 32)
-	seed[0] = 19
-	e, err := walletenv.New(seed, time.Unix(1600000000, 0), 0, nil)
+// ---------------------------------------------------------------- templates
+
+type realEnv struct {
+	dir       string
+	templates map[string]string
+	params    *chaincfg.Params
+}
+
+func newRealEnv() (*realEnv, error) {
+	dir, err := os.MkdirTemp("", "vh-c19-real-")
 	if err != nil {
 		return nil, err
 	}
+	return &realEnv{dir: dir, templates: map[string]string{}, params: &chaincfg.RegressionNetParams}, nil
+}
+
+func (r *realEnv) close() { os.RemoveAll(r.dir) }
+
+func copyFile(src, dst string) error {
+	in, err := os.Open(src)
+	if err != nil {
+		return err
+	}
+	defer in.Close()
+	out, err := os.Create(dst)
+	if err != nil {
+		return err
+	}
+	if _, err := io.Copy(out, in); err != nil {
+		out.Close()
+		return err
+	}
+	return out.Close()
+}
+
+// template returns the path of a database file with the given stored versions
+// (built once): a wallet with one address, one block and one confirmed
+// transaction (so that dropping the history is visible), degraded.
+func (r *realEnv) template(txVer, addrVer, addrLatest uint32) (string, error) {
+	key := fmt.Sprintf("%d-%d", txVer, addrVer)
+	if p, ok := r.templates[key]; ok {
+		return p, nil
+	}
+	seed := make([]byte, 32)
+	seed[0] = 19
+	// stored birthday = this - 48h; populateBirthdayBlock estimates
+	// (birthday - genesis time) / 600 = birthdayHeight
+	gen := chaincfg.RegressionNetParams.GenesisBlock.Header.Timestamp
+	birthday := gen.Add(48*time.Hour + time.Duration(birthdayHeight)*600*time.Second + 300*time.Second)
+	e, err := walletenv.New(seed, birthday, 0, nil)
+	if err != nil {
+		return "", err
+	}
 	defer e.Close()
-	// give the store a transaction so that dropping the history is visible
 	c := simchain.New(e.Params)
 	e.W.VerifSetChainClient(c)
 	e.W.SetChainSynced(true)
 	addr, err := e.W.NewAddress(0, waddrmgr.KeyScopeBIP0084)
 	if err != nil {
-		return nil, err
+		return "", err
 	}
 	pk, _ := txscript.PayToAddrScript(addr)
 	tx := wire.NewMsgTx(2)
@@ -113,96 +321,568 @@ func runReal(name string, txDelta, addrDelta int) (*realCase, error) {
 	tx.AddTxOut(wire.NewTxOut(100000, pk))
 	b := c.Extend([]*wire.MsgTx{tx}, nil)
 	if err := e.W.VerifConnectBlock(b.Meta()); err != nil {
-		return nil, err
+		return "", err
 	}
 	rec, _ := wtxmgr.NewTxRecordFromMsgTx(tx, b.Time)
 	m := b.Meta()
 	if err := e.W.VerifAddRelevantTx(rec, &m); err != nil {
-		return nil, err
+		return "", err
 	}
 	e.W.Stop()
 	e.W.WaitForShutdown()
 	e.W = nil
+	if err := degrade(e.DB, txVer, addrVer, addrLatest); err != nil {
+		return "", err
+	}
+	if err := e.DB.Close(); err != nil {
+		return "", err
+	}
+	e.DB = nil
+	p := filepath.Join(r.dir, "template-"+key+".db")
+	if err := copyFile(e.Path, p); err != nil {
+		return "", err
+	}
+	r.templates[key] = p
+	return p, nil
+}
 
-	// set the stored versions
-	err = walletdb.Update(e.DB, func(dbtx walletdb.ReadWriteTx) error {
-		tm := wtxmgr.NewMigrationManager(dbtx.ReadWriteBucket(wtxNS))
-		am := waddrmgr.NewMigrationManager(dbtx.ReadWriteBucket(wadNS))
-		rc.Obs.TxLatest, rc.Obs.AdLatest = latestOf(tm.Versions()), latestOf(am.Versions())
-		if err := tm.SetVersion(nil, uint32(int(rc.Obs.TxLatest)+txDelta)); err != nil {
+// ---------------------------------------------------------------- observation
+
+func dumpBucket(w io.Writer, b walletdb.ReadBucket, depth int) error {
+	return b.ForEach(func(k, v []byte) error {
+		fmt.Fprintf(w, "%d|%x|", depth, k)
+		if v == nil {
+			if nb := b.NestedReadBucket(k); nb != nil {
+				io.WriteString(w, "B\n")
+				return dumpBucket(w, nb, depth+1)
+			}
+		}
+		fmt.Fprintf(w, "%x\n", v)
+		return nil
+	})
+}
+
+// dumpNS: a digest of each of the two namespaces.
+func dumpNS(db walletdb.DB) (map[string]string, error) {
+	out := map[string]string{}
+	err := walletdb.View(db, func(tx walletdb.ReadTx) error {
+		for _, ns := range [][]byte{wadNS, wtxNS} {
+			b := tx.ReadBucket(ns)
+			if b == nil {
+				return fmt.Errorf("namespace %s missing", ns)
+			}
+			h := sha256.New()
+			if err := dumpBucket(h, b, 0); err != nil {
+				return err
+			}
+			out[string(ns)] = hex.EncodeToString(h.Sum(nil))
+		}
+		return nil
+	})
+	return out, err
+}
+
+func addrEffects(ns walletdb.ReadBucket) string {
+	var b bytes.Buffer
+	if bb, err := waddrmgr.FetchBirthdayBlock(ns); err == nil {
+		fmt.Fprintf(&b, "birthday_block=%d ", bb.Height)
+	} else {
+		b.WriteString("birthday_block=none ")
+	}
+	sync := ns.NestedReadBucket([]byte("sync"))
+	if st := sync.Get([]byte("syncedto")); len(st) >= 4 {
+		fmt.Fprintf(&b, "synced=%d ", binary.LittleEndian.Uint32(st[:4]))
+	}
+	n := 0
+	_ = sync.ForEach(func(k, v []byte) error {
+		if len(k) == 4 && len(v) == 32 {
+			n++
+		}
+		return nil
+	})
+	fmt.Fprintf(&b, "block_hashes=%d", n)
+	return b.String()
+}
+
+func txEffects(ns walletdb.ReadBucket) string {
+	n := 0
+	if t := ns.NestedReadBucket([]byte("t")); t != nil {
+		_ = t.ForEach(func(k, v []byte) error { n++; return nil })
+	}
+	return fmt.Sprintf("mined_tx_records=%d", n)
+}
+
+// ---------------------------------------------------------------- one case
+
+var entries = map[string][]string{ // the services the entry touches, in the order it upgrades them
+	"wallet_open":  {"wtxmgr", "waddrmgr"}, // corrected from the observed order of writes
+	"upgrade_both": {"waddrmgr", "wtxmgr"},
+	"upgrade_addr": {"waddrmgr"},
+	"upgrade_tx":   {"wtxmgr"},
+	"open_addr":    {"waddrmgr"},
+	"open_tx":      {"wtxmgr"},
+}
+
+// execEntry performs the call of the case on db.
+func execEntry(entry string, db walletdb.DB, params *chaincfg.Params) error {
+	switch entry {
+	case "wallet_open":
+		w, err := wallet.OpenWithRetry(db, walletenv.PubPass, nil, params, 0, 10*time.Millisecond)
+		if err != nil {
 			return err
 		}
-		return am.SetVersion(nil, uint32(int(rc.Obs.AdLatest)+addrDelta))
-	})
-	if err != nil {
-		return nil, err
-	}
-	before, err := dumpDB(e.DB)
-	if err != nil {
-		return nil, err
-	}
-	w, oerr := wallet.OpenWithRetry(e.DB, walletenv.PubPass, nil, e.Params, 0, 10*time.Millisecond)
-	if oerr != nil {
-		rc.Obs.OpenErr = oerr.Error()
-		rc.Obs.Reversion = errors.Is(oerr, migration.ErrReversion)
-	} else {
 		w.Start()
 		w.Stop()
 		w.WaitForShutdown()
+		return nil
+	case "upgrade_both", "upgrade_addr", "upgrade_tx":
+		return walletdb.Update(db, func(dbtx walletdb.ReadWriteTx) error {
+			am := waddrmgr.NewMigrationManager(dbtx.ReadWriteBucket(wadNS))
+			tm := wtxmgr.NewMigrationManager(dbtx.ReadWriteBucket(wtxNS))
+			switch entry {
+			case "upgrade_addr":
+				return migration.Upgrade(am)
+			case "upgrade_tx":
+				return migration.Upgrade(tm)
+			}
+			return migration.Upgrade(am, tm)
+		})
+	case "open_addr":
+		return walletdb.View(db, func(dbtx walletdb.ReadTx) error {
+			m, err := waddrmgr.Open(dbtx.ReadBucket(wadNS), walletenv.PubPass, params)
+			if err == nil {
+				m.Close()
+			}
+			return err
+		})
+	case "open_tx":
+		return walletdb.View(db, func(dbtx walletdb.ReadTx) error {
+			_, err := wtxmgr.Open(dbtx.ReadBucket(wtxNS), params)
+			return err
+		})
 	}
-	after, err := dumpDB(e.DB)
+	return fmt.Errorf("unknown entry %q", entry)
+}
+
+func versionOfFn(table []realVersion, fn string) (uint32, bool) {
+	for _, v := range table {
+		if !v.Nil && v.Fn == fn {
+			return v.Num, true
+		}
+	}
+	return 0, false
+}
+
+func sameU32(a, b []uint32) bool {
+	if len(a) != len(b) {
+		return false
+	}
+	for i := range a {
+		if a[i] != b[i] {
+			return false
+		}
+	}
+	return true
+}
+
+// runReal runs one case on a copy of its template.
+func (r *realEnv) runReal(in realIn) (*realCase, error) {
+	rc := &realCase{In: in, Oracle: []string{}, Tags: []string{"real_components", "entry_" + in.Entry}}
+	names, ok := entries[in.Entry]
+	if !ok {
+		return nil, fmt.Errorf("unknown entry %q", in.Entry)
+	}
+	txTable, adTable, txLatest, adLatest := tables()
+	txVer, err := resolveVersion(in.Tx, txLatest)
 	if err != nil {
 		return nil, err
 	}
-	rc.Obs.Unchanged = before == after
-	// (wtxmgr's CurrentVersion reads the manager's own namespace and ignores
-	// its argument, so the managers are built on the namespaces)
-	_ = walletdb.Update(e.DB, func(dbtx walletdb.ReadWriteTx) error {
-		rc.Obs.TxVerAfter, _ = wtxmgr.NewMigrationManager(dbtx.ReadWriteBucket(wtxNS)).CurrentVersion(nil)
-		rc.Obs.AdVerAfter, _ = waddrmgr.NewMigrationManager(dbtx.ReadWriteBucket(wadNS)).CurrentVersion(nil)
+	adVer, err := resolveVersion(in.Addr, adLatest)
+	if err != nil {
+		return nil, err
+	}
+	tmpl, err := r.template(txVer, adVer, adLatest)
+	if err != nil {
+		return nil, fmt.Errorf("building the database (txmgr %d, addrmgr %d): %w", txVer, adVer, err)
+	}
+	path := filepath.Join(r.dir, "case.db")
+	if err := copyFile(tmpl, path); err != nil {
+		return nil, err
+	}
+	defer os.Remove(path)
+	raw, err := walletenv.OpenDB(path, false)
+	if err != nil {
+		return nil, err
+	}
+	defer raw.Close()
+	db := &fdb{DB: raw}
+
+	before, err := dumpNS(raw)
+	if err != nil {
+		return nil, err
+	}
+	db.failAt = in.FailAt
+	db.clear()
+	cerr := execEntry(in.Entry, db, r.params)
+	db.failAt = 0
+	calls := db.calls
+	rc.Obs.Writes, rc.Obs.Txs = len(calls), db.txs
+	rc.Obs.RepoSite = in.Entry == "wallet_open"
+	switch {
+	case cerr == nil:
+		rc.Obs.Class = "ok"
+	case errors.Is(cerr, migration.ErrReversion):
+		rc.Obs.Class, rc.Obs.Err = "reversion", cerr.Error()
+	default:
+		rc.Obs.Class, rc.Obs.Err = "error", cerr.Error()
+	}
+	after, err := dumpNS(raw)
+	if err != nil {
+		return nil, err
+	}
+	rc.Obs.Unchanged = before[string(wadNS)] == after[string(wadNS)] && before[string(wtxNS)] == after[string(wtxNS)]
+
+	// order in which the call upgraded the services: as written, corrected by
+	// the order of the first attributed write of each
+	seen := map[string]bool{}
+	var order []string
+	for _, c := range calls {
+		if c.Fn != "" && !seen[c.NS] {
+			seen[c.NS] = true
+			order = append(order, c.NS)
+		}
+	}
+	for _, n := range names {
+		if !seen[n] {
+			order = append(order, n)
+			seen[n] = true
+		}
+	}
+	info := map[string]*realMgr{
+		"wtxmgr":   {NS: "wtxmgr", Table: txTable, Latest: txLatest, StoredBefore: txVer},
+		"waddrmgr": {NS: "waddrmgr", Table: adTable, Latest: adLatest, StoredBefore: adVer},
+	}
+	for _, c := range calls {
+		m := info[c.NS]
+		if m == nil || c.Fn == "" {
+			rc.Obs.Unattrib++
+			continue
+		}
+		if strings.HasSuffix(c.Fn, ".SetVersion") {
+			m.SetVersion++
+			if c.Failed {
+				rc.Obs.Fault = &realFault{NS: c.NS, Fn: c.Fn, SetVersion: true}
+			}
+			continue
+		}
+		n, ok := versionOfFn(m.Table, c.Fn)
+		if !ok {
+			rc.Obs.Unattrib++
+			continue
+		}
+		if len(m.Invoked) == 0 || m.Invoked[len(m.Invoked)-1] != n {
+			m.Invoked = append(m.Invoked, n)
+		}
+		if c.Failed {
+			rc.Obs.Fault = &realFault{NS: c.NS, Fn: c.Fn, Version: n}
+		}
+	}
+	if f := db.failed(); f != nil && rc.Obs.Fault == nil {
+		rc.Obs.Fault = &realFault{NS: f.NS, Fn: f.Fn}
+	}
+	// versions as the managers read them, from the raw buckets, and what the
+	// components' own Open says about the database now
+	_ = walletdb.Update(raw, func(dbtx walletdb.ReadWriteTx) error {
+		tns, ans := dbtx.ReadWriteBucket(wtxNS), dbtx.ReadWriteBucket(wadNS)
+		info["wtxmgr"].VerAfter, _ = wtxmgr.NewMigrationManager(tns).CurrentVersion(nil)
+		info["waddrmgr"].VerAfter, _ = waddrmgr.NewMigrationManager(ans).CurrentVersion(nil)
+		info["wtxmgr"].RawVerAfter, info["waddrmgr"].RawVerAfter = rawTxVersion(tns), rawAddrVersion(ans)
+		info["wtxmgr"].Effects, info["waddrmgr"].Effects = txEffects(tns), addrEffects(ans)
+		if _, err := wtxmgr.Open(tns, r.params); err != nil {
+			info["wtxmgr"].OpenAfter = err.Error()
+		}
+		if m, err := waddrmgr.Open(ans, walletenv.PubPass, r.params); err != nil {
+			info["waddrmgr"].OpenAfter = err.Error()
+		} else {
+			m.Close()
+		}
 		return errors.New("read only: roll back")
 	})
-
-	// the property, stated directly
-	newer := txDelta > 0 || addrDelta > 0
-	switch {
-	case newer:
-		if oerr == nil || !rc.Obs.Reversion {
-			rc.Oracle = append(rc.Oracle, "newer_database_not_refused")
+	for _, n := range order {
+		if m := info[n]; m != nil && contains(names, n) {
+			m.Unchanged = before[n] == after[n]
+			if m.Invoked == nil {
+				m.Invoked = []uint32{}
+			}
+			rc.Obs.Mgrs = append(rc.Obs.Mgrs, *m)
 		}
-		if !rc.Obs.Unchanged {
-			// includes: an upgrade of the OTHER component applied in the
-			// same database transaction must have been rolled back
-			rc.Oracle = append(rc.Oracle, "newer_database_modified")
+	}
+	rc.Obs.ModelCheck = strings.HasPrefix(in.Entry, "upgrade_") || in.Entry == "wallet_open"
+	rc.Oracle = realOracle(in, &rc.Obs)
+	// tags
+	for _, m := range rc.Obs.Mgrs {
+		switch {
+		case m.StoredBefore > m.Latest:
+			rc.Tags = append(rc.Tags, m.NS+"_newer")
+		case m.StoredBefore < m.Latest:
+			rc.Tags = append(rc.Tags, m.NS+"_older")
 		}
-	default:
-		if oerr != nil {
-			rc.Oracle = append(rc.Oracle, "clean_upgrade_reported_error")
-		} else if rc.Obs.TxVerAfter != rc.Obs.TxLatest || rc.Obs.AdVerAfter != rc.Obs.AdLatest {
-			rc.Oracle = append(rc.Oracle, "latest_version_not_recorded")
-		}
-		if txDelta == 0 && addrDelta == 0 && !rc.Obs.Unchanged {
-			rc.Oracle = append(rc.Oracle, "up_to_date_database_modified")
-		}
+	}
+	if rc.Obs.Fault != nil {
+		rc.Tags = append(rc.Tags, "real_write_failure")
 	}
 	return rc, nil
 }
 
-func realCases(out *core.Emitter) error {
-	for _, c := range []struct {
-		name         string
-		tx, addr int
-	}{
-		{"up_to_date", 0, 0},
-		{"addrmgr_newer", 0, 1},
-		{"txmgr_newer", 1, 0},
-		{"both_newer", 2, 3},
-		{"txmgr_older_addrmgr_newer", -1, 1}, // the txmgr migration runs first and must be rolled back
-		{"txmgr_older", -1, 0},               // real migration 2 (drop history) applies, version recorded
+func contains(xs []string, x string) bool {
+	for _, y := range xs {
+		if x == y {
+			return true
+		}
+	}
+	return false
+}
+
+// expectedInvoked: the non-nil entries of the table numbered above stored,
+// ascending, up to and including the version the injected failure landed in.
+func expectedInvoked(m *realMgr, upTo uint32, cut bool) []uint32 {
+	out := []uint32{}
+	for _, v := range m.Table { // sorted by number
+		if v.Num <= m.StoredBefore || v.Nil {
+			continue
+		}
+		out = append(out, v.Num)
+		if cut && v.Num == upTo {
+			break
+		}
+	}
+	return out
+}
+
+// realOracle: the property, stated directly on what was observed.
+func realOracle(in realIn, o *realObs) []string {
+	bad := []string{}
+	add := func(k string) {
+		for _, b := range bad {
+			if b == k {
+				return
+			}
+		}
+		bad = append(bad, k)
+	}
+	newer, pending := false, false
+	for _, m := range o.Mgrs {
+		if m.StoredBefore > m.Latest {
+			newer = true
+		}
+		if m.StoredBefore < m.Latest {
+			pending = true
+		}
+	}
+	if in.Entry == "open_addr" || in.Entry == "open_tx" {
+		// the component's own version check
+		m := o.Mgrs[0]
+		if newer {
+			if o.Class == "ok" {
+				add("newer_database_not_refused")
+			}
+			if !o.Unchanged {
+				add("newer_database_modified")
+			}
+		} else if !pending && o.Class != "ok" {
+			add("up_to_date_database_refused")
+		}
+		_ = m
+		return bad
+	}
+	switch {
+	case newer:
+		if o.Class == "ok" {
+			add("newer_database_not_refused")
+		}
+		if !o.Unchanged {
+			// includes: an upgrade of the OTHER service applied by the
+			// same call must not survive the refusal
+			add("newer_database_modified")
+		}
+	case o.Fault != nil:
+		if o.Class == "ok" {
+			add("failed_migration_reported_success")
+		}
+		for i := range o.Mgrs {
+			m := &o.Mgrs[i]
+			if m.NS != o.Fault.NS {
+				continue
+			}
+			if m.VerAfter != m.StoredBefore || m.RawVerAfter != int64(m.StoredBefore) {
+				add("version_changed_on_error")
+			}
+			if !m.Unchanged {
+				add("data_changed_on_error")
+			}
+			if !sameU32(m.Invoked, expectedInvoked(m, o.Fault.Version, !o.Fault.SetVersion)) {
+				add("invoked_migrations_not_exactly_pending_in_order")
+			}
+		}
+	default:
+		if o.Class != "ok" {
+			add("clean_upgrade_reported_error")
+			break
+		}
+		for i := range o.Mgrs {
+			m := &o.Mgrs[i]
+			if m.VerAfter != m.Latest || m.RawVerAfter != int64(m.Latest) {
+				add("latest_version_not_recorded")
+			}
+			if m.OpenAfter != "" {
+				add("upgraded_database_not_accepted_by_open")
+			}
+			if !sameU32(m.Invoked, expectedInvoked(m, 0, false)) {
+				add("invoked_migrations_not_exactly_pending_in_order")
+			}
+		}
+		if !pending && !o.Unchanged {
+			add("up_to_date_database_modified")
+		}
+	}
+	return bad
+}
+
+// writesOf: number of mutating calls the entry makes on the layout when
+// nothing fails (run on a scratch copy of the database).
+func (r *realEnv) writesOf(in realIn) (int, error) {
+	_, _, txLatest, adLatest := tables()
+	txVer, err := resolveVersion(in.Tx, txLatest)
+	if err != nil {
+		return 0, err
+	}
+	adVer, err := resolveVersion(in.Addr, adLatest)
+	if err != nil {
+		return 0, err
+	}
+	tmpl, err := r.template(txVer, adVer, adLatest)
+	if err != nil {
+		return 0, err
+	}
+	path := filepath.Join(r.dir, "probe.db")
+	if err := copyFile(tmpl, path); err != nil {
+		return 0, err
+	}
+	defer os.Remove(path)
+	raw, err := walletenv.OpenDB(path, false)
+	if err != nil {
+		return 0, err
+	}
+	defer raw.Close()
+	db := &fdb{DB: raw}
+	_ = execEntry(in.Entry, db, r.params)
+	return len(db.calls), nil
+}
+
+// realPlan: the cases of a run.
+func (r *realEnv) realPlan(thorough bool) ([]realIn, error) {
+	var plan []realIn
+	add := func(name, entry, tx, addr string, fails ...int) {
+		for _, f := range fails {
+			plan = append(plan, realIn{Real: name, Entry: entry, Tx: tx, Addr: addr, FailAt: f})
+		}
+	}
+	// every write of the deepest upgrade through the repository's call site
+	deep := realIn{Entry: "wallet_open", Tx: "1", Addr: "5"}
+	w, err := r.writesOf(deep)
+	if err != nil {
+		return nil, err
+	}
+	add("both_older", "wallet_open", "1", "5", 0)
+	for k := 1; k <= w; k++ {
+		add("both_older", "wallet_open", "1", "5", k)
+	}
+	// the other layouts through wallet.Open
+	for _, l := range []struct{ name, tx, addr string }{
+		{"up_to_date", "latest", "latest"},
+		{"addrmgr_v5", "latest", "5"}, {"addrmgr_v6", "latest", "6"}, {"addrmgr_v7", "latest", "7"},
+		{"txmgr_older", "1", "latest"},
+		{"addrmgr_newer", "latest", "latest+1"}, {"txmgr_newer", "latest+1", "latest"},
+		{"both_newer", "latest+2", "latest+3"},
+		{"txmgr_older_addrmgr_newer", "1", "latest+1"}, // the txmgr migration runs first and must be rolled back
+		{"txmgr_newer_addrmgr_older", "latest+1", "5"},
+		{"addrmgr_v6_txmgr_older", "1", "6"},
 	} {
-		rc, err := runReal(c.name, c.tx, c.addr)
+		add(l.name, "wallet_open", l.tx, l.addr, 0)
+		n, err := r.writesOf(realIn{Entry: "wallet_open", Tx: l.tx, Addr: l.addr})
 		if err != nil {
-			return fmt.Errorf("real case %s: %w", c.name, err)
+			return nil, err
+		}
+		if n > 0 {
+			ks := []int{1, n}
+			if n > 2 {
+				ks = append(ks, n/2, n-1)
+			}
+			if thorough {
+				ks = nil
+				for k := 1; k <= n; k++ {
+					ks = append(ks, k)
+				}
+			}
+			done := map[int]bool{}
+			for _, k := range ks {
+				if k >= 1 && !done[k] {
+					done[k] = true
+					add(l.name, "wallet_open", l.tx, l.addr, k)
+				}
+			}
+		}
+	}
+	// migration.Upgrade called directly
+	for _, l := range []struct{ name, entry, tx, addr string }{
+		{"direct_both_older", "upgrade_both", "1", "5"},
+		{"direct_both_up_to_date", "upgrade_both", "latest", "latest"},
+		{"direct_addr_older_tx_newer", "upgrade_both", "latest+1", "6"}, // addrmgr first here: must be rolled back
+		{"direct_addr_newer_tx_older", "upgrade_both", "1", "latest+1"},
+		{"direct_addr_v5", "upgrade_addr", "latest", "5"}, {"direct_addr_v6", "upgrade_addr", "latest", "6"},
+		{"direct_addr_v7", "upgrade_addr", "latest", "7"}, {"direct_addr_newer", "upgrade_addr", "latest", "latest+1"},
+		{"direct_addr_up_to_date", "upgrade_addr", "latest", "latest"},
+		{"direct_tx_older", "upgrade_tx", "1", "latest"}, {"direct_tx_newer", "upgrade_tx", "latest+1", "latest"},
+		{"direct_tx_up_to_date", "upgrade_tx", "latest", "latest"},
+	} {
+		add(l.name, l.entry, l.tx, l.addr, 0)
+		n, err := r.writesOf(realIn{Entry: l.entry, Tx: l.tx, Addr: l.addr})
+		if err != nil {
+			return nil, err
+		}
+		if n > 0 {
+			add(l.name, l.entry, l.tx, l.addr, n) // the last write: SetVersion of the last service
+			if n > 3 {
+				add(l.name, l.entry, l.tx, l.addr, n/2)
+			}
+		}
+	}
+	// the components' own Open
+	for _, l := range []struct{ name, entry, tx, addr string }{
+		{"open_addr_up_to_date", "open_addr", "latest", "latest"}, {"open_addr_newer", "open_addr", "latest", "latest+1"},
+		{"open_addr_older", "open_addr", "latest", "7"},
+		{"open_tx_up_to_date", "open_tx", "latest", "latest"}, {"open_tx_newer", "open_tx", "latest+1", "latest"},
+		{"open_tx_older", "open_tx", "1", "latest"},
+	} {
+		add(l.name, l.entry, l.tx, l.addr, 0)
+	}
+	return plan, nil
+}
+
+func realCases(out *core.Emitter, thorough bool) error {
+	r, err := newRealEnv()
+	if err != nil {
+		return err
+	}
+	defer r.close()
+	plan, err := r.realPlan(thorough)
+	if err != nil {
+		return fmt.Errorf("real cases: %w", err)
+	}
+	for _, in := range plan {
+		rc, err := r.runReal(in)
+		if err != nil {
+			return fmt.Errorf("real case %s/%s fail_at=%d: %w", in.Real, in.Entry, in.FailAt, err)
 		}
 		out.Emit(rc)
 	}
